@@ -162,45 +162,57 @@ def helpers(ctx):
         conf = np.array([[[0.0 if rng.random() < 0.3 else 1.0 for _ in range(N)]] for _ in range(F)], dtype=np.float32)
         return Pose(header, NumPyPoseBody(25.0, data, conf))
     def named(header, pairs):
-        out = []
+        out = []                                        # flat indexes from the component tables themselves, not from the library's lookup
+        offs, o = {}, 0
+        for c in header.components:
+            offs[c.name] = (o, list(c.points)); o += len(c.points)
         for c, p in pairs:
-            try: out.append(header.get_point_index(c, p))
-            except ValueError: pass
+            if c in offs and p in offs[c][1]:
+                out.append(offs[c][0] + offs[c][1].index(p))
         return out
     for rep in range(ctx.pick(4, 30)):
         op_header = PoseHeader(0.2, PoseHeaderDimensions(100, 100, 0), copy.deepcopy(OpenPose_Components))
         hol = holistic_header()
-        for kind, header, dims in (("openpose", op_header, 2), ("holistic", hol, 3)):
+        variants = [("openpose", op_header, 2), ("holistic", hol, 3)]
+        # the same formats with a different point layout, in the same process: some points dropped in front of the named ones
+        for kind, header, dims in list(variants):
+            comp = header.components[0]
+            drop = rng.sample([p for p in comp.points if "rist" not in p and "RIST" not in p], rng.randint(1, 3))
+            variants.append((kind, make(header, dims).remove_components([], {comp.name: drop}).header, dims))
+        for kind, header, dims in variants:
             pose = make(header, dims)
             src = pc.canon_pose(pose)
             N = header.total_points()
             ctx.evaluated(("helper", kind, rep)); ctx.count("helper:" + kind)
-            # hide legs: only the leg points change (become zero / missing)
-            hidden = pose_hide_legs(copy.deepcopy(pose), remove=False)
-            legs = [(c.name, p) for c in header.components for p in c.points if (kind == "openpose" and c.name == "pose_keypoints_2d" and any(w in p for w in ["Hip", "Knee", "Ankle", "BigToe", "SmallToe", "Heel"]))
-                    or (kind == "holistic" and c.name in ("POSE_LANDMARKS", "POSE_WORLD_LANDMARKS") and any(p == s + "_" + w for s in ("LEFT", "RIGHT") for w in ["KNEE", "ANKLE", "HEEL", "FOOT_INDEX", "HIP"]))]
-            leg_idx = set(named(header, legs))
-            a, b = np.asarray(pose.body.data.data), np.asarray(hidden.body.data.data)
-            others = [i for i in range(N) if i not in leg_idx]
-            if not (np.array_equal(a[:, :, others], b[:, :, others]) and np.array_equal(pose.body.confidence[:, :, others], hidden.body.confidence[:, :, others]) and (hidden.body.confidence[:, :, sorted(leg_idx)] == 0).all()):
-                ctx.violation("pose_hide_legs changes points it does not name, or leaves a leg point visible", {"format": kind}, {}, True, signature={"clause": "hide_legs"})
-            removed = pose_hide_legs(copy.deepcopy(pose), remove=True)
-            if removed.header.total_points() != N - len(leg_idx) or not np.array_equal(np.asarray(removed.body.data.data), a[:, :, others]):
-                ctx.violation("pose_hide_legs(remove=True) is not the selection of the other points", {"format": kind}, {"points": removed.header.total_points(), "want": N - len(leg_idx)}, True, signature={"clause": "remove_legs"})
-            # wrist correction: only the two body wrist points may change, and only where the hand wrist is observed... (the body wrist takes its own value where the hand wrist is missing)
-            fixed = correct_wrists(pose)
-            if pc.diff(src, pc.canon_pose(pose)):
-                ctx.violation("correct_wrists modifies its input", {"format": kind}, {}, True, signature={"clause": "wrists_input"})
-            wr = set(named(header, [("pose_keypoints_2d", "LWrist"), ("pose_keypoints_2d", "RWrist")] if kind == "openpose" else [("POSE_LANDMARKS", "LEFT_WRIST"), ("POSE_LANDMARKS", "RIGHT_WRIST")]))
-            oth = [i for i in range(N) if i not in wr]
-            if not (np.array_equal(np.asarray(fixed.body.data.data)[:, :, oth], a[:, :, oth]) and np.array_equal(fixed.body.confidence[:, :, oth], pose.body.confidence[:, :, oth])):
-                ctx.violation("correct_wrists changes points other than the body wrists", {"format": kind}, {}, True, signature={"clause": "wrists"})
-            if kind == "holistic":
-                red = reduce_holistic(pose)
-                names = [(c.name, p) for c in red.header.components for p in c.points]
-                idx = named(header, names)
-                if len(idx) != red.header.total_points() or not np.array_equal(np.asarray(red.body.data.data), a[:, :, idx]) or any(c.name == "POSE_WORLD_LANDMARKS" for c in red.header.components):
-                    ctx.violation("reduce_holistic does not keep exactly the named points with their values", {"format": kind}, {}, True, signature={"clause": "reduce_holistic"})
+            try:
+                # hide legs: only the leg points change (become zero / missing)
+                hidden = pose_hide_legs(copy.deepcopy(pose), remove=False)
+                legs = [(c.name, p) for c in header.components for p in c.points if (kind == "openpose" and c.name == "pose_keypoints_2d" and any(w in p for w in ["Hip", "Knee", "Ankle", "BigToe", "SmallToe", "Heel"]))
+                        or (kind == "holistic" and c.name in ("POSE_LANDMARKS", "POSE_WORLD_LANDMARKS") and any(p == s + "_" + w for s in ("LEFT", "RIGHT") for w in ["KNEE", "ANKLE", "HEEL", "FOOT_INDEX", "HIP"]))]
+                leg_idx = set(named(header, legs))
+                a, b = np.asarray(pose.body.data.data), np.asarray(hidden.body.data.data)
+                others = [i for i in range(N) if i not in leg_idx]
+                if not (np.array_equal(a[:, :, others], b[:, :, others]) and np.array_equal(pose.body.confidence[:, :, others], hidden.body.confidence[:, :, others]) and (hidden.body.confidence[:, :, sorted(leg_idx)] == 0).all()):
+                    ctx.violation("pose_hide_legs changes points it does not name, or leaves a leg point visible", {"format": kind}, {}, True, signature={"clause": "hide_legs"})
+                removed = pose_hide_legs(copy.deepcopy(pose), remove=True)
+                if removed.header.total_points() != N - len(leg_idx) or not np.array_equal(np.asarray(removed.body.data.data), a[:, :, others]):
+                    ctx.violation("pose_hide_legs(remove=True) is not the selection of the other points", {"format": kind}, {"points": removed.header.total_points(), "want": N - len(leg_idx)}, True, signature={"clause": "remove_legs"})
+                # wrist correction: only the two body wrist points may change, and only where the hand wrist is observed... (the body wrist takes its own value where the hand wrist is missing)
+                fixed = correct_wrists(pose)
+                if pc.diff(src, pc.canon_pose(pose)):
+                    ctx.violation("correct_wrists modifies its input", {"format": kind}, {}, True, signature={"clause": "wrists_input"})
+                wr = set(named(header, [("pose_keypoints_2d", "LWrist"), ("pose_keypoints_2d", "RWrist")] if kind == "openpose" else [("POSE_LANDMARKS", "LEFT_WRIST"), ("POSE_LANDMARKS", "RIGHT_WRIST")]))
+                oth = [i for i in range(N) if i not in wr]
+                if not (np.array_equal(np.asarray(fixed.body.data.data)[:, :, oth], a[:, :, oth]) and np.array_equal(fixed.body.confidence[:, :, oth], pose.body.confidence[:, :, oth])):
+                    ctx.violation("correct_wrists changes points other than the body wrists", {"format": kind}, {}, True, signature={"clause": "wrists"})
+                if kind == "holistic":
+                    red = reduce_holistic(pose)
+                    names = [(c.name, p) for c in red.header.components for p in c.points]
+                    idx = named(header, names)
+                    if len(idx) != red.header.total_points() or not np.array_equal(np.asarray(red.body.data.data), a[:, :, idx]) or any(c.name == "POSE_WORLD_LANDMARKS" for c in red.header.components):
+                        ctx.violation("reduce_holistic does not keep exactly the named points with their values", {"format": kind}, {}, True, signature={"clause": "reduce_holistic"})
+            except Exception as e:
+                ctx.violation("a known-format helper fails on a pose of its format", {"format": kind, "points": N}, {"error": "%s: %s" % (type(e).__name__, e)}, True, signature={"clause": "helper_raises"})
 
 
 def replay(ctx, rep):
